@@ -1,3 +1,5 @@
+//go:build verif
+
 // dump runs lox's front-end and constructions in-process on a set of
 // directories holding .lox files and prints, per directory, one JSON line:
 // the grammar lox built, the LALR automaton with every candidate action, the
@@ -82,7 +84,21 @@ type Out struct {
 	Modes     []Mode   `json:"modes"`
 	NoParser  bool     `json:"noparser"`
 	SkipLALR  bool     `json:"-"`
+	Trace     []TraceEv `json:"trace"`
 }
+
+// TraceEv is one visit of the ConstructLALR worklist, reported by the verif-tag hook lr1.VerifTrace.
+type TraceEv struct {
+	From    int    `json:"from"`
+	Sym     string `json:"sym"`
+	To      int    `json:"to"`
+	New     bool   `json:"new"`
+	Changed bool   `json:"changed"`
+	Items   int    `json:"items"`
+}
+
+var traceMu sync.Mutex
+var wantTrace bool
 
 func symOf(t lr1.Term) Sym {
 	switch t := t.(type) {
@@ -185,7 +201,20 @@ func dumpOne(dir string, lalr bool) (out Out) {
 		return
 	}
 	out.Stage = "lalr"
-	t := lr1.ConstructLALR(g)
+	var t *lr1.ParserTable
+	if wantTrace {
+		traceMu.Lock()
+		out.Trace = []TraceEv{}
+		lr1.VerifTrace = func(ev lr1.VerifEvent) {
+			out.Trace = append(out.Trace, TraceEv{ev.From, ev.Sym, ev.To, ev.New, ev.Changed, ev.Items})
+		}
+		func() {
+			defer func() { lr1.VerifTrace = nil; traceMu.Unlock() }()
+			t = lr1.ConstructLALR(g)
+		}()
+	} else {
+		t = lr1.ConstructLALR(g)
+	}
 	out.Conflicts = t.HasConflicts
 	for _, st := range t.States {
 		s := State{Items: [][3]int{}, Actions: []Action{}, Trans: [][3]int{}}
@@ -225,6 +254,10 @@ func main() {
 	args := os.Args[1:]
 	if len(args) > 0 && args[0] == "-nolalr" {
 		lalr = false
+		args = args[1:]
+	}
+	if len(args) > 0 && args[0] == "-trace" {
+		wantTrace = true
 		args = args[1:]
 	}
 	var dirs []string
